@@ -449,4 +449,5 @@ PROPERTY = Property(
                  "the multi-agent buffer is scanned through sample(len) (a permutation of its content)"],
     wanted_labels=["buffer=uniform", "buffer=per", "buffer=multi", "wrapped", "cleared", "sample-after-clear",
                    "obs=dict", "obs=tuple", "obs=image", "multi-vectorised"],
+    fuzz=['single_agent_buffer', 'multi_agent_buffer'],
 )
